@@ -319,6 +319,73 @@ func init() {
 			return s.makeInterface(st, scalar(org.typ, loc.Ref), org.typ, fn.Signature.Results().At(0).Type())
 		}
 	}
+	// sort.Slice / sort.SliceStable permute the elements of the slice in place (the less function is assumed pure)
+	for _, nm := range []string{"sort.Slice", "sort.SliceStable"} {
+		builtinModels[nm] = func(s *Session, fr *Frame, fn *ssa.Function, args []Val, st *State) Val {
+			org, ok := s.ifaceOrigin[args[0].T0().S]
+			if !ok || len(org.val.L) != 3 {
+				s.note("sort.Slice on a value of unknown shape in %s: heap havocked", fr.fn.String())
+				s.havocAll(st)
+				return Val{}
+			}
+			sl := org.typ.Underlying().(*types.Slice)
+			eloc := &Loc{Kind: "A", TypeKey: typeKey(sl.Elem()), Ref: org.val.L[0], Typ: sl.Elem()}
+			names, sorts, leaves := locHeaps(eloc)
+			for i, l := range leaves {
+				h := s.heapGet(st, names[i], sorts[i])
+				st.Heap[names[i]] = s.define("H", Store(h, org.val.L[0], s.fresh("sorted", arrSort(l.Sort))))
+			}
+			s.note("sort.Slice in %s: the slice is replaced by an arbitrary array (permutation/order facts not modelled)", fr.fn.String())
+			return Val{}
+		}
+	}
+	// sort.Search(n, f): binary search returns i in [0,n] with f(i) (if i < n) and !f(i-1) (if i > 0); both hold for
+	// every predicate, monotone or not. f is run symbolically on scratch copies of the state.
+	builtinModels["sort.Search"] = func(s *Session, fr *Frame, fn *ssa.Function, args []Val, st *State) Val {
+		n := args[0].T0()
+		r := s.fresh("search", SInt)
+		s.assume(Imp(st.Reach, And(Le(I(0), r), Le(r, Ite(Ge(n, I(0)), n, I(0))))))
+		var cf *ssa.Function
+		var binds []Val
+		if args[1].Clo != nil {
+			cf, binds = args[1].Clo.Fn, args[1].Clo.Bindings
+		} else if args[1].Fn != nil {
+			cf = args[1].Fn
+		}
+		if cf != nil && len(cf.Blocks) > 0 {
+			runAt := func(i T) (T, bool) {
+				scratch := st.clone()
+				nf := &Frame{sess: s, fn: cf, params: []Val{scalar(types.Typ[types.Int], i)}, depth: fr.depth + 1, stack: append(append([]*ssa.Function(nil), fr.stack...), cf), oblPfx: fr.oblPfx, nSafety: fr.nSafety}
+				pre := map[ssa.Value]Val{}
+				for k, fv := range cf.FreeVars {
+					pre[fv] = binds[k]
+				}
+				saved := s.suppressObl
+				s.suppressObl = true
+				res, out := s.execBodyWith(nf, scratch, pre)
+				s.suppressObl = saved
+				if out == nil || len(res) != 1 {
+					return TTrue, false
+				}
+				return res[0].T0(), true
+			}
+			if at, ok := runAt(r); ok {
+				s.assume(Imp(And(st.Reach, Lt(r, n)), at))
+			}
+			if before, ok := runAt(Sub(r, I(1))); ok {
+				s.assume(Imp(And(st.Reach, Gt(r, I(0))), Not(before)))
+			}
+		}
+		return scalar(types.Typ[types.Int], r)
+	}
+	builtinModels["bytes.Compare"] = func(s *Session, fr *Frame, fn *ssa.Function, args []Val, st *State) Val {
+		h := s.heapGet(st, heapName("A", "byte", ""), arrSort(arrSort(SInt)))
+		a := s.uf("bytes2str", SInt, Select(h, args[0].L[0]), args[0].L[1], args[0].L[2])
+		b := s.uf("bytes2str", SInt, Select(h, args[1].L[0]), args[1].L[1], args[1].L[2])
+		r := s.uf("keycmp", SInt, a, b)
+		s.assume(And(Le(I(-1), r), Le(r, I(1)), Eq(Eq(r, I(0)), Eq(a, b)), Eq(s.uf("keycmp", SInt, b, a), Neg(r))))
+		return scalar(types.Typ[types.Int], r)
+	}
 	builtinModels["bytes.Equal"] = func(s *Session, fr *Frame, fn *ssa.Function, args []Val, st *State) Val {
 		h := s.heapGet(st, heapName("A", "byte", ""), arrSort(arrSort(SInt)))
 		a := s.uf("bytes2str", SInt, Select(h, args[0].L[0]), args[0].L[1], args[0].L[2])
